@@ -219,7 +219,7 @@ def run_driver(lines, timeout=600):
 # running the real trainer in-process
 
 def train(training_file, ruledir, encoding='utf-8', ngram=4, coverage=0.6, alphabet_size=100,
-          prefixcount=False, save_sensitive=False, multiword=False, max_len=21, capture=True):
+          prefixcount=False, save_sensitive=False, multiword=False, max_len=21, capture=True, keep=False):
     """run_trainer() of the snapshot on a training file; returns (ok, captured stdout)"""
     use_impl()
     import io
@@ -234,7 +234,7 @@ def train(training_file, ruledir, encoding='utf-8', ngram=4, coverage=0.6, alpha
         'alphabet': 'abcdefghijklmnopqrstuvwxyzABCDEFGHIJKLMNOPQRSTUVWXYZ0123456789!.*@-_$#<?',
         'smoothing': 0.01, 'coverage': coverage, 'max_len': max_len, 'multiword': multiword,
     }
-    if os.path.exists(ruledir):
+    if os.path.exists(ruledir) and not keep:     # keep=True: train over an existing ruleset of the same name, as trainer.py does
         shutil.rmtree(ruledir)
     buf = io.StringIO()
     with contextlib.redirect_stdout(buf), contextlib.redirect_stderr(buf):
